@@ -15,6 +15,10 @@ class SpinDetected(BaseException):
     """the library keeps polling a transport that is at end of stream: it spins without consuming input"""
 
 
+class BlocksForever(BaseException):
+    """the library reads from a transport that has no timeout while the peer stays silent"""
+
+
 class Sock:
     def __init__(self, events=(), accept=None, timeout=1):
         self.inbox = [tuple(e) for e in events]
@@ -32,6 +36,9 @@ class Sock:
             raise OSError(9, "Bad file descriptor")
         if not self.inbox:
             if self.silence_after:
+                if self.timeout is None and getattr(self, "strict_blocking", False):
+                    # a blocking socket and a silent peer: the real call would never come back
+                    raise BlocksForever("read on a blocking transport while the peer is silent")
                 raise socket.timeout("timed out")
             self.eof_reads = getattr(self, "eof_reads", 0) + 1
             if self.eof_reads > 200:
